@@ -30,6 +30,8 @@ impl Head {
 
     pub fn write(&mut self, data: &[u8]) -> Result<(), IoError> {
         fail_point!("write-head");
+        // the head file is also read through a cloned handle that shares its cursor
+        self.file.seek(SeekFrom::End(0))?;
         self.file.write_all(data)?;
         self.bytes += data.len() as u64;
         Ok(())
